@@ -147,6 +147,18 @@ def check_case(rec, case: dict) -> None:
         try:
             if (t + len(case["queries"])) % 3 == 0:
                 harness.distract(rec)
+            if t % 4 in (1, 3):
+                # the call before this one FAILED (a negative tick, a hint past the end, a hint beyond the governing tempo): a refused
+                # question leaves nothing behind for the next one
+                try:
+                    if t % 8 == 1:
+                        be.timestamp_at_tick(-1)
+                    elif t % 8 == 3:
+                        be.timestamp_at_tick(0, start_iteration_index=len(be) + 2)
+                    else:
+                        be.timestamp_at_tick(0, start_iteration_index=len(be) - 1)
+                except ValueError:
+                    rec.mon("valid_questions_put_right_after_a_refused_one")
             ts, _ = be.timestamp_at_tick(t)
             model.check_time(dq, tm, t, us(ts), "direct query")
             if t % 2:
